@@ -139,8 +139,8 @@ def matcher(f, case):
     return False
 
 
-def run(pid, tier, seed, replay, props, judge, extra_streams=None, rule_extra=''):
-    ck = Check(pid, tier, seed, UNITS, MODEL, props)
+def run(pid, tier, seed, replay, props, judge, extra_streams=None, rule_extra='', extra_units=()):
+    ck = Check(pid, tier, seed, UNITS + list(extra_units), MODEL, props)
     ck.prepare()
 
     def still_fails(f):
